@@ -174,6 +174,15 @@ def main(argv=None):
             report.coverage["traces_validated_against_impl"] = report.coverage.get("traces_validated_against_impl", 0) + sc.get("sequences", 0)
             if sc.get("f1_found_by_model") and sc.get("f2_found_by_model"):
                 report.notes.append("SchedCache.tla: the pre-fix variants of F1 (MIN over chains) and F2 (edge loss does not flag the producer) fail in the model")
+    if pid in ("C03", "C10"):
+        # Layer G: amended inputs, deferral, wake-up and the defer cap (spec/Defer.tla) model checked
+        # and replayed into the real Workflow
+        with Scratch():
+            from checks import defer
+            df = defer.run(report, args.tier, args.seed, pid)
+        report.coverage["defer"] = df
+        report.coverage["states"] = report.coverage.get("states", 0) + df.get("states", 0)
+        report.coverage["traces_validated_against_impl"] = report.coverage.get("traces_validated_against_impl", 0) + df.get("sequences", 0)
     return report.finish()
 
 
